@@ -339,6 +339,15 @@ func runC06Invalid(w *caseWriter, id string, d c06Desc, st *c06Stats) {
 		w.line("iset %s %s %d %s", xs("signing-callback-fails"), xs(f), b2i(err == nil), xs(fmt.Sprint(err)))
 		st.invalid++
 	}
+	// an invalid signature type with a callback as the only signer
+	if base["deb"] {
+		err := packageInto(d.YAML, "deb", io.Discard, func(info *nfpm.Info) {
+			info.Deb.Signature.Type = "bogus"
+			info.Deb.Signature.SignFn = func(io.Reader) ([]byte, error) { return []byte("signature"), nil }
+		})
+		w.line("iset %s %s %d %s", xs("deb-signature-type-callback"), xs("deb"), b2i(err == nil), xs(fmt.Sprint(err)))
+		st.invalid++
+	}
 	w.line("iend")
 	st.cases++
 }
